@@ -6,7 +6,7 @@ cd /verif
 miss=0
 scratch=/var/tmp/verif-selftest-$$
 rm -rf $scratch && mkdir -p $scratch && rsync -a --exclude .git /repo/ $scratch/
-trap 'rm -rf $scratch /verif/evidence/*.selftest' EXIT
+trap 'rm -rf $scratch /verif/evidence/*.json.*' EXIT
 for m in selftest/mutants/*.mut; do
   p=$(basename $m .mut)
   out=$(VERIF_REPO=$scratch VERIF_EVIDENCE_SUFFIX=.selftest ./tools_mut.py $p $m 2>&1)
